@@ -4,6 +4,10 @@
 package link
 
 //@ ifacegetters EstablishLinkWithPeer HandleMountedStream
+// Identity getters of links and mounted links/streams never change for a given value.
+//@ ifacegetters Link:GetUUID,GetTransportUUID,GetRemoteTransportUUID,GetLocalPeer,GetRemotePeer
+//@ ifacegetters MountedLink:GetLinkUUID,GetTransportUUID,GetRemoteTransportUUID,GetLocalPeer,GetRemotePeer
+//@ ifacegetters MountedStream:GetProtocolID,GetPeerID,GetLink,GetStream
 
 //@ func (*establishLinkWithPeer).IsEquivalent
 //@   ensures ret ==> samegetters(d, other, EstablishLinkWithPeer)
